@@ -20,6 +20,16 @@ Batches == << <<MkF(N(5), T_gene, <<>>, <<>>)>>,                                
               <<MkF(N(2), T_exon, <<Z>>, <<<<TN, <<<<50>>>>>>>>)>>,                          \* colliding id b (agrees with the flat file's b, differs elsewhere)
               <<MkF(N(6), T_exon, <<N(4)>>, <<>>)>>,                                         \* child of existing d
               <<MkF(Z, T_gene, <<>>, <<>>)>> >>                                              \* the parent named by a dangling Parent
+GtfDialect == [DefaultDialect EXCEPT !.fmt = "gtf", !.kvsep = <<SP>>, !.fsep = <<SEMI, SP>>, !.quoted = TRUE, !.trail = TRUE]
+GX(ft, s, e, g, t) == [MkF(<<>>, ft, <<>>, <<>>) EXCEPT !.start = s, !.end = e, !.attrs = <<<<T_gene_id, <<g>>>>, <<T_transcript_id, <<t>>>>>>]
+G1 == <<103, 49>>  TA == <<116, 49>>  TB == <<116, 50>>
+T_CDS == <<67, 68, 83>>
+\* a GTF database: two exons of transcript t1 of gene g1 (transcript and gene are derived)
+GtfInit == <<GX(T_exon, 1, 5, G1, TA), GX(T_exon, 8, 9, G1, TA)>>
+GtfBatches == << <<GX(T_exon, 12, 14, G1, TA)>>,                       \* extends t1 and g1: the stored derived extents go stale (as in the code)
+                 <<GX(T_exon, 3, 4, G1, TB)>>,                         \* a second transcript inside the gene
+                 <<GX(T_CDS, 2, 3, G1, TA), GX(T_exon, 20, 22, <<103, 50>>, <<116, 57>>)>> >>   \* a CDS, and a new gene
+IsGtf(d) == d.dialect.fmt = "gtf"
 Strategies == {"error", "warning", "replace", "create_unique", "merge"}
 NoBak == [none |-> TRUE]
 
@@ -27,31 +37,34 @@ VARIABLES db, ctr, bak, handed, h
 vars == <<db, ctr, bak, handed, h>>
 view == <<db, ctr, bak, handed>>
 
-Cfg(s) == [DefaultCfg EXCEPT !.strategy = s]
+Cfg(s) == [DefaultCfg EXCEPT !.strategy = s, !.idspec = [kind |-> "default"]]
 AutoKeys(d) == {d.feats[i].id : i \in {j \in 1..Len(d.feats) : \E p \in d.ctrP : IsPrefix(p[1] \o <<UNDER>>, d.feats[j].id)}}
-Init == /\ \E k \in 1..Len(Inits) : LET c == Create(Inits[k], <<>>, DefaultDialect, Cfg("error")) IN
-             db = c.db /\ ctr = c.ctr /\ h = <<[op |-> "create", init |-> k, feats |-> Inits[k], snap |-> Snap(c.st, c.db, c.ctr), bak |-> NoBak]>>
+Init == /\ \/ \E k \in 1..Len(Inits) : LET c == Create(Inits[k], <<>>, DefaultDialect, Cfg("error")) IN
+                db = c.db /\ ctr = c.ctr /\ h = <<[op |-> "create", init |-> k, gtf |-> FALSE, feats |-> Inits[k], snap |-> Snap(c.st, c.db, c.ctr), bak |-> NoBak]>>
+           \/ LET c == Create(GtfInit, <<>>, GtfDialect, [Cfg("error") EXCEPT !.importer = "gtf"]) IN
+                db = c.db /\ ctr = c.ctr /\ h = <<[op |-> "create", init |-> 0, gtf |-> TRUE, feats |-> GtfInit, snap |-> Snap(c.st, c.db, c.ctr), bak |-> NoBak]>>
         /\ bak = NoBak /\ handed = {}
 
 Rec(op, args, st, d, c, b) == [op |-> op, snap |-> Snap(st, d, c), bak |-> b] @@ args
 NewKeys(d0, d1) == Ids(d1) \ Ids(d0)
 
+BatchOf(b) == IF IsGtf(db) THEN GtfBatches[b] ELSE Batches[b]
 DoUpdate(b, s, backup) ==
-  LET r == Update(db, ctr, Batches[b], Cfg(s)) IN
+  LET r == Update(db, ctr, BatchOf(b), Cfg(s)) IN
   /\ bak' = IF backup THEN Proj(db) ELSE bak
   /\ IF r.st = "raise"
      THEN /\ UNCHANGED <<db, ctr, handed>>
-          /\ h' = Append(h, Rec("update", [batch |-> b, feats |-> Batches[b], strategy |-> s, backup |-> backup], "raise", db, ctr, bak'))
+          /\ h' = Append(h, Rec("update", [batch |-> b, feats |-> BatchOf(b), strategy |-> s, backup |-> backup], "raise", db, ctr, bak'))
      ELSE /\ db' = r.db /\ ctr' = r.ctr
           /\ handed' = handed \cup (r.ctr \ ctr)
-          /\ h' = Append(h, Rec("update", [batch |-> b, feats |-> Batches[b], strategy |-> s, backup |-> backup], "ok", r.db, r.ctr, bak'))
+          /\ h' = Append(h, Rec("update", [batch |-> b, feats |-> BatchOf(b), strategy |-> s, backup |-> backup], "ok", r.db, r.ctr, bak'))
 DoUpdateEmpty ==
   /\ bak' = Proj(db) /\ UNCHANGED <<db, ctr, handed>>
   /\ h' = Append(h, Rec("update", [batch |-> 0, feats |-> <<>>, strategy |-> "error", backup |-> TRUE], "ok", db, ctr, bak'))
 \* the feature source raises after k items: nothing is asserted about the database, everything about the backup
 DoUpdateFails(b, k) ==
   /\ bak' = Proj(db) /\ UNCHANGED <<db, ctr, handed>>
-  /\ h' = Append(h, Rec("updatefail", [batch |-> b, feats |-> Batches[b], failAt |-> k, strategy |-> "create_unique", backup |-> TRUE], "failed", db, ctr, bak'))
+  /\ h' = Append(h, Rec("updatefail", [batch |-> b, feats |-> BatchOf(b), failAt |-> k, strategy |-> "create_unique", backup |-> TRUE], "failed", db, ctr, bak'))
 DoDelete(id, backup) ==
   /\ db' = Delete(db, {id}) /\ bak' = (IF backup THEN Proj(db) ELSE bak) /\ UNCHANGED <<ctr, handed>>
   /\ h' = Append(h, Rec("delete", [ids |-> <<id>>, backup |-> backup], "ok", db', ctr, bak'))
@@ -67,10 +80,12 @@ DoReopen ==
 \* handle after a failed call; the real handle is then inside an open transaction)
 Terminal == h[Len(h)].op = "updatefail" \/ (h[Len(h)].op = "addrel" /\ h[Len(h)].snap.st = "raise")
 Next == /\ Len(h) <= Depth /\ ~Terminal
-        /\ \/ \E b \in 1..Len(Batches), s \in Strategies, bk \in BOOLEAN : DoUpdate(b, s, bk)
+        /\ \/ \E b \in 1..(IF IsGtf(db) THEN Len(GtfBatches) ELSE Len(Batches)), s \in Strategies, bk \in BOOLEAN : DoUpdate(b, s, bk)
            \/ DoUpdateEmpty
-           \/ \E b \in {2, 4} : \E k \in 0..1 : DoUpdateFails(b, k)
-           \/ \E id \in Ids(db), bk \in {TRUE} : DoDelete(id, bk)
+           \/ \E b \in (IF IsGtf(db) THEN {3} ELSE {2, 4}) : \E k \in 0..1 : DoUpdateFails(b, k)
+           \* (in a GTF database only line features are deleted: after deleting a derived gene a later update that re-derives it
+           \*  from a transcript without stored gene->exon rows makes the real importer fail inside _update_relations)
+           \/ \E id \in {x \in Ids(db) : ~IsGtf(db) \/ Get(db, x).source # T_derived}, bk \in {TRUE} : DoDelete(id, bk)
            \/ \E p \in {N(1), N(6)}, c \in {N(4), N(2)}, l \in {1, 2}, rw \in BOOLEAN : DoAddRel(p, c, l, rw)
            \/ DoReopen
 Spec == Init /\ [][Next]_vars
